@@ -38,6 +38,16 @@ func GenConc(t *rapid.T) ConcCase {
 	pool := []uint32{0, 1, 2, 3}
 	c.Prefix = append(c.Prefix, sessfs.Op{Kind: "attach", Fid: 0, Afid: sessfs.NOFID})
 	c.Prefix = append(c.Prefix, sessfs.Op{Kind: "attach", Fid: 1, Afid: sessfs.NOFID})
+	if rapid.IntRange(0, 3).Draw(t, "openprefix") > 0 {
+		// an open file (read-write) and an open directory among the shared fids, so that
+		// concurrent I/O on one fid (file data and directory reads) is common
+		c.Prefix = append(c.Prefix,
+			sessfs.Op{Kind: "walk", Fid: 0, Newfid: 2, Names: []string{"a", "x"}},
+			sessfs.Op{Kind: "open", Fid: 2, Mode: 2},
+			sessfs.Op{Kind: "walk", Fid: 0, Newfid: 3, Names: []string{"a"}},
+			sessfs.Op{Kind: "open", Fid: 3, Mode: 0},
+		)
+	}
 	np := rapid.IntRange(0, 6).Draw(t, "nprefix")
 	for i := 0; i < np; i++ {
 		op := sessfs.GenOp(t, 0)
@@ -93,6 +103,12 @@ func GenConc(t *rapid.T) ConcCase {
 			}
 			if op.Kind == "create" && op.Fault == "opendir" {
 				op.Fault = "create"
+			}
+			if (op.Kind == "stat" || op.Kind == "wstat") && rapid.IntRange(0, 1).Draw(t, "toread") == 0 {
+				op = sessfs.Op{Kind: "read", Fid: op.Fid, Count: 64, Offset: 0, Fault: op.Fault}
+				if op.Fault != "" {
+					op.Fault = "read"
+				}
 			}
 			if op.Fid >= 100 && !isMine(mine, op.Fid) {
 				// a foreign fid is only *used*: never unbound or rebound by somebody else
